@@ -610,6 +610,9 @@ func c19Explore(c *fw.Ctx, cs c19Case, bound int) {
 	if st.Deadlines > 0 {
 		c.HarnessError("C19 %s: %d executions hit the watchdog (first at schedule %v)", name, st.Deadlines, st.DeadlineAt)
 	}
+	if st.WarmStart {
+		c.Count("warm_start_scenarios", 1)
+	}
 	if st.Nondeterministic {
 		c.HarnessError("C19: replaying the default schedule gave a different execution (uncaptured nondeterminism)")
 	}
